@@ -57,6 +57,11 @@ def fn_body_nodes(fi: FunctionInfo) -> Iterable[ast.AST]:
         yield from walk_local(fi.node.body)
         return
     for st in fi.node.body:
+        if isinstance(st, (ast.FunctionDef, ast.AsyncFunctionDef, ast.ClassDef)):
+            yield st                      # a nested definition is its own scope
+            for d in getattr(st, "decorator_list", []):
+                yield from walk_local(d)
+            continue
         yield from walk_local(st)
 
 
